@@ -29,7 +29,7 @@ def mutate(g, raw, side):
     """Returns (kind, mutated bytes)."""
     lines = raw.split(b"\r\n")
     kind = g.choice(["startline", "startline", "header-nocolon", "chunk-size", "chunk-term", "length", "random", "truncate", "flip", "longline",
-                     "header-garbage", "dup-crlf"] + (["continue", "redirect-noloc", "redirect-badloc", "sse-badutf8"] if side == "response" else []))
+                     "header-garbage", "dup-crlf", "many-headers"] + (["continue", "redirect-noloc", "redirect-badloc", "sse-badutf8"] if side == "response" else []))
     if kind == "continue":       # interim response(s) before the real one, complete or not
         return kind, b"HTTP/1.1 100 Continue\r\n" + g.choice([b"", b"X-Note: wait\r\n"]) + b"\r\n" + g.choice([raw, b"", b"HTTP/1.1 100 Continue\r\n\r\n" + raw, raw[:g.randint(0, len(raw))]])
     if kind == "redirect-noloc":
@@ -87,6 +87,15 @@ def mutate(g, raw, side):
     if kind == "longline":
         return kind, g.choice([b"GET /" + b"a" * 70000 + b" HTTP/1.1\r\n\r\n", b"GET / HTTP/1.1\r\nX: " + b"b" * 70000, b"c" * 66000]) if side == "request" else \
             g.choice([b"HTTP/1.1 200 " + b"a" * 70000, b"HTTP/1.1 200 OK\r\nX: " + b"b" * 70000])
+    if kind == "many-headers":     # each line well formed, but more distinct header names than any parser limit (in the head or as trailers)
+        n = g.choice([101, 101, 120, 300, 1100])
+        extra = [b"X-H%d: v%d" % (i, i) for i in range(n)]
+        if g.random() < 0.7:
+            return kind, b"\r\n".join(lines[:1] + extra + lines[1:])
+        head, sep, body = raw.partition(b"\r\n\r\n")
+        head_l = [l for l in head.split(b"\r\n") if not l.lower().startswith((b"content-length", b"transfer-encoding"))]
+        head_l.append(b"Transfer-Encoding: chunked")
+        return kind, b"\r\n".join(head_l) + b"\r\n\r\n5\r\nhello\r\n0\r\n" + b"\r\n".join(extra) + b"\r\n\r\n"
     if kind == "dup-crlf":
         return kind, raw.replace(b"\r\n", b"\r\r\n", 1)
     return kind, raw
@@ -98,7 +107,7 @@ class C32(Check):
     engine = "netsim.http"
     design_ref = "§6 C32"
     rule = ("server side: a Valet with one healthy keep-alive Patron (1-3 requests, drawn response shapes) and 1-3 raw peers "
-            "each delivering a byte-level mutation of a valid request (12 mutation kinds) cut into pieces, optionally closing "
+            "each delivering a byte-level mutation of a valid request (13 mutation kinds) cut into pieces, optionally closing "
             "afterwards, interleaved by a seeded schedule; client side: a Patron receiving a mutated response in pieces, "
             "optionally followed by close; non-trivial = a mutated message reached a parser; distinct = digest of "
             "(mutation kinds, bytes, cuts, schedule)")
